@@ -209,14 +209,6 @@ def findOwner (w : WTypes) (owners : List (WAny × (Owner × Str))) : Nat → WA
       | some next => findOwner w owners fuel next
       | none => none
 
-/-- the owner is an interface that has no id (`self.types[id].id.is_none()`) -/
-def ownerIdless (st : St) : Owner → Bool
-  | .interface i =>
-    match st.types.interfaces[i]? with
-    | some itf => itf.id.isNone
-    | none => false
-  | .world _ => false
-
 /-- `TypeConverter::use_or_own` -/
 def useOrOwn (w : WTypes) (st : St) (owner : Owner) (name : Str) (referenced created : WAny) : Outcome St :=
   match findOwner w st.owners (w.res.length + w.defs.length + 1) referenced with
@@ -236,10 +228,6 @@ def useOrOwn (w : WTypes) (st : St) (owner : Owner) (name : Str) (referenced cre
       | some _ => st
       | none => { st with owners := (created, (other, orig)) :: st.owners })
   | none =>
-    -- an interface without an id (an instance under a plain name, an instance type) cannot be
-    -- named by a `use`: it never owns a type
-    if ownerIdless st owner then .ok st
-    else
     -- take ownership unless it already has an owner: `owners.entry(created).or_insert(..)`
     match lookup st.owners created with
     | some _ => .ok st
